@@ -262,6 +262,8 @@ def fatal_property(scenario, sig):
     # process-level failure (SIGFPE, abort, hang, SIGSEGV elsewhere) is C14 "faults the process"
     if scenario.startswith("c15") and sig in (11, 7):
         return "C15"
+    if scenario.startswith("c18") and sig == 14:
+        return "C18"  # a sampler that never returns although the stream has healed
     return "C14"
 
 
@@ -593,6 +595,41 @@ PROPS = {
             "VecDeque model of an exact-size double-ended iterator",
             "iter_u64_digits() (a plain slice iterator on 64-bit targets) as observation channel",
             "only x86_64 / 64-bit digits are compiled",
+        ],
+    ),
+    "C17": dict(
+        level="exploration",
+        jobs=[
+            Job("c17", "std-debug", 600_000, 12_000_000,
+                "plans = 1..6 serde exchanges (fault-free round trips of values built by 8 different routes; serializer failing at token k; "
+                "arbitrary delivered u32/u64 token lists with padding, truncation, duplication, wide elements, missing End, lying size_hint, "
+                "deserializer failing at read k; (sign, digits) pairs with invalid / inconsistent signs; several values on one tape); "
+                "distinct = distinct (exchange kind, length class, parity/top-half-zero, fault kind, hint kind, route)"),
+            Job("c17", "std-release", 200_000, 4_000_000, "same plans in the release harness (no debug assertions)"),
+        ],
+        assumptions=[
+            "token-level reference model of the documented format (Seq(len) U32* End / Tuple(2) I8 Seq.. End)",
+            "TokSerializer/TokDeserializer are faithful serde endpoints (self-describing, End-delimited sequences)",
+            "declared sequence length None would be tolerated; Some(n) must equal the number of elements",
+            "only x86_64 / 64-bit digits are compiled",
+        ],
+    ),
+    "C18": dict(
+        level="exploration",
+        jobs=[
+            Job("c18", "std-debug", 500_000, 10_000_000,
+                "plans = one scripted RNG byte stream (segments: random, zeros, ones, candidates equal to / above / just below the bound, "
+                "junk in shifted-out bits; always healing to zeros) + 1..10 sampling calls sharing it (gen_biguint/gen_bigint/RandomBits/"
+                "gen_biguint_below/ranges/Uniform/sample_single/gen_range, tiny-bound enumeration, try_fill_bytes error at call k); "
+                "non-trivial = a rejection retry, a special-case branch (lbound=0/ubound=0), a documented panic, an RNG error or an enumeration; "
+                "distinct = distinct (API, bit-size class, bound shape class, inclusive?, sign classes, retries)"),
+            Job("c18", "std-release", 200_000, 4_000_000, "same plans in the release harness"),
+        ],
+        assumptions=[
+            "rng_model: gen_biguint(n) = first ceil(n/32) little-endian words of the stream, top word shifted right by 32 - n%32",
+            "bounded sampling = low + first candidate of bits(width) bits below the width (property text)",
+            "SimRng is a byte-stream RngCore (next_u32/next_u64/fill_bytes all consume the same stream)",
+            "rand 0.8.8 Rng::fill / gen::<bool> as shipped",
         ],
     ),
 }
